@@ -28,15 +28,31 @@ namespace vt {
 using namespace simgrid::mc;
 using Type = Transition::Type;
 
+// A Channel holds two 1 MiB buffers: two of them are allocated once (default-initialised: no memset) and reused.
 struct Packer {
-  Channel tmp;
-  template <class T> void p(T v) { tmp.pack<T>(v); }
+  static Channel& tmp()
+  {
+    static Channel* c = new Channel;
+    return *c;
+  }
+  static Channel& in()
+  {
+    static Channel* c = new Channel;
+    return *c;
+  }
+  Packer() { tmp().buffer_out_size_ = 0; }
+  template <class T> void p(T v) { tmp().pack<T>(v); }
   Transition* finish(int aid, int tc)
   {
-    Channel in;
-    in.reinject(tmp.buffer_out_, tmp.buffer_out_size_);
-    tmp.buffer_out_size_ = 0; // nothing must be "sent" by the destructor
-    return deserialize_transition(Aid(aid), tc, in);
+    in().buffer_in_next_ = in().buffer_in_size_ = 0;
+    in().reinject(tmp().buffer_out_, tmp().buffer_out_size_);
+    tmp().buffer_out_size_ = 0;
+    Transition* t        = deserialize_transition(Aid(aid), tc, in());
+    if (in().buffer_in_size_ != 0) {
+      fprintf(stderr, "HARNESS: %zu bytes of the serialised transition were not consumed\n", in().buffer_in_size_);
+      exit(3);
+    }
+    return t;
   }
 };
 
